@@ -99,6 +99,10 @@ def main(argv=None):
         # on the unchanged tree every check finishes far below the limit; a tree on which the exploration explodes
         # (e.g. a timer that fires without end) behaves differently from the verified one
         print("VIOLATION property=%s replay=%s clause=%s.terminates shape=exploration-exceeded-%ds :: %s" % (pid, "none", pid, limit, e))
+        known = load_known()
+        for (clause, shape), (cnt, wit) in sorted(getattr(getattr(e, "stats", None), "viol", {}).items())[:6]:
+            if (pid, clause, shape) not in known:
+                print("VIOLATION property=%s replay=none clause=%s shape=%s :: (found before the limit, not re-confirmed) %s" % (pid, clause, shape, wit[2][:200]))
         return 1
     extra = {}
     if hasattr(mod, "post"):
@@ -118,7 +122,7 @@ def main(argv=None):
     # confirm each violation witness by replaying it twice in this process
     new, seen_known = [], []
     for (clause, shape), (cnt, wit) in sorted(stats.viol.items()):
-        cfg_idx, choices, msg = wit
+        cfg_idx, choices, msg = wit[:3]
         ok = True
         if cfg_idx >= 0:
             for _ in range(2):
@@ -137,7 +141,7 @@ def main(argv=None):
         print("KNOWN-FINDING: property=%s clause=%s shape=%s (%d executions) %s" % (pid, clause, shape, cnt, what))
     os.makedirs(os.path.join(VERIF, "replays"), exist_ok=True)
     for (clause, shape, cnt, wit) in new:
-        cfg_idx, choices, msg = wit
+        cfg_idx, choices, msg = wit[:3]
         cfg = cfgs[cfg_idx] if cfg_idx >= 0 else None
         labels = None
         if cfg_idx >= 0:
